@@ -260,7 +260,8 @@ def check_simplex(run, cx, cfg, tier):
                     inner = t[2][2]
                     if inner[0] == 'app' and inner[1].rsplit('::', 1)[-1] in ('floor', 'floorf64') and inner[2][0] == old:
                         return P.atom(FLOOR)
-                if t[0] == 'cast' and t[1] == 'IntToFloat' and t[2][0] == 'op' and t[2][1] == 'BitAnd' and t[2][3] == ('int', 7, 'i64'):
+                if t[0] == 'cast' and t[1] == 'IntToFloat' and t[2][0] == 'op' and t[2][1] == 'BitAnd' and t[2][3][0] == 'int' and t[2][3][1] == 7:
+                    # (the hash masked to its low three bits, in whatever integer type it is carried: a magnitude in [0, 7])
                     return P.atom(('g', repr(t[2][2])[:0] + str(hash(t[2][2]) % 1000003)))
                 return None
             N = P.Normalizer(leaf=leaf)
